@@ -78,6 +78,10 @@ def translate(workdir):
     return res
 
 
+# Conc/SkelOblig.v nonatomic_ok
+NONATOMIC_OK = ("mget", "del", "exists", "keys", "blpop", "brpop", "sdiffstore", "sinterstore", "sunionstore")
+
+
 def obligation_failures(tr):
     """Human-readable list of what the translator obligations object to."""
     bad = []
@@ -88,6 +92,8 @@ def obligation_failures(tr):
             bad.append("%s: not well_locked: %s" % (name, r["why"]))
         elif not r["ordered"]:
             bad.append("%s: ordered_acquisition fails: %s" % (name, r["why_lock"]))
+        elif not r["single"] and name not in NONATOMIC_OK:
+            bad.append("%s: more than one critical section (the command is no longer one atomic step)" % name)
     for n, b in sorted(tr["obligations"].items()):
         if not b:
             bad.append("obligation %s = false" % n)
@@ -242,11 +248,21 @@ def lin_lines(name, keys, ops, dump, atomic, pending_after=None, final=True):
         stages = [o.args]
         obs = o.reply
         if o.name in ("blpop", "brpop"):
+            # the executor polls the keys in order, each under its own lock: a pop served from key j
+            # needs earlier instants at which keys 0..j-1 did not exist, a nil reply one for every key
+            keys_ = o.args[1:-1]
+            pop = b"LPOP" if o.name == "blpop" else b"RPOP"
             m = re.match(r"^\*\[\$(\S+) (\$\S+)\]$", obs)
-            if not m:
-                continue        # timed out / error: no effect claimed
-            stages = [[b"LPOP" if o.name == "blpop" else b"RPOP", unhx(m.group(1))]]
-            obs = m.group(2)
+            if m:
+                j = keys_.index(unhx(m.group(1))) if unhx(m.group(1)) in keys_ else 0
+                stages = [[b"EXISTS", k] for k in keys_[:j]] + [[pop, keys_[j]]]
+                obs = " ;; ".join([":0"] * j + [m.group(2)])
+            elif obs == "$nil":
+                stages = [[b"EXISTS", k] for k in keys_]
+                obs = " ;; ".join([":0"] * len(keys_))
+            else:
+                continue        # error reply: no effect claimed
+            mode = "each"
         elif o.name in STAGED and len(o.args) > 2:
             mode = STAGED[o.name]
             stages = [[o.args[0], k] for k in o.args[1:]]
@@ -574,6 +590,46 @@ def check_keys_replies(phase, ops):
     return viol
 
 
+def check_list_conservation(phase, ops, q):
+    """hotlist phase: only pushes of unique elements, pops and moves between the phase's lists run, so
+    every acknowledged push must be returned by exactly one pop or still be stored at quiescence
+    (C05_queue_conservation / C05_each_element_popped_once: true of every linearizable history)."""
+    viol = []
+    pushed, popped = {}, {}
+    for o in ops:
+        if o.name in ("lpush", "rpush") and o.reply.startswith(":"):
+            for a in o.args[2:]:
+                pushed[hx(a)] = o
+        elif o.name in ("lpop", "rpop") and o.reply.startswith("$") and o.reply != "$nil":
+            popped.setdefault(o.reply[1:], []).append(o)
+        elif o.name in ("blpop", "brpop"):
+            m = re.match(r"^\*\[\$(\S+) \$(\S+)\]$", o.reply)
+            if m:
+                popped.setdefault(m.group(2), []).append(o)
+    stored = {}
+    for l in q["dump"]:
+        f = l.split(" ")
+        if f[4] == "L" and len(f) > 7 and f[7]:
+            for x in f[7].split(","):
+                stored[x] = stored.get(x, 0) + 1
+    lost = [e for e in pushed if e not in popped and e not in stored]
+    twice = [e for e in popped if len(popped[e]) + stored.get(e, 0) > 1]
+    ghost = [e for e in list(popped) + list(stored) if e not in pushed]
+    if lost or twice or ghost:
+        def show(e):
+            return unhx(e).decode("latin1")
+        viol.append(dict(kind="list-elements-not-conserved", phase=phase,
+                         lost_total=len(lost), popped_twice_total=len(twice), never_pushed_total=len(ghost),
+                         pushed_total=len(pushed), popped_total=sum(len(v) for v in popped.values()),
+                         stored_at_quiescence=sum(stored.values()),
+                         lost=[dict(element=show(e), acknowledged_push="%s [%d,%d] %s" % (pushed[e].ident(), pushed[e].inv, pushed[e].res, pushed[e].text())) for e in lost[:6]],
+                         popped_twice=[dict(element=show(e), pops=[p.ident() + " " + p.text() for p in popped[e]][:3]) for e in twice[:4]],
+                         never_pushed=[show(e) for e in ghost[:4]],
+                         final_dump=[x[:300] for x in q["dump"]],
+                         note="an acknowledged push is neither returned by any pop nor stored at quiescence (or an element came out twice): no sequential order of the commands explains the history"))
+    return viol
+
+
 def check_conservation(phase, ops, q):
     """conserve phase: only LMOVE / SMOVE (and readers) run after the setup, so the multiset of list
     elements and the set of set members must be exactly what the setup stored."""
@@ -670,6 +726,12 @@ def check_phase_dir(phase, d, tr, budget, stats, want_lin=True):
     viol += check_locklog(phase, ops, locks, tr, stats)
     if phase == "conserve":
         viol += check_conservation(phase, ops, q)
+    if phase == "hotlist":
+        cons = check_list_conservation(phase, ops, q)
+        viol += cons
+        if cons:
+            want_lin = False        # lost / duplicated elements are the concrete history already
+        budget = min(budget, 100_000)
     if want_lin and not any(v["kind"] == "server-crash" for v in viol):
         viol += check_linearizable(phase, ops, q, tr, d, budget, stats)
     return viol
